@@ -122,7 +122,7 @@ pub struct PanicInfo {
 impl PanicInfo {
     /// Whether the panic originated in code under test (quinn) rather than in the harness
     pub fn in_quinn(&self) -> bool {
-        self.file.contains("/repo/") || self.file.starts_with("quinn")
+        self.file.contains("/repo/") || self.file.starts_with("quinn") || self.file.contains("quinn-proto/src/") || self.file.contains("quinn/src/") || self.file.contains("quinn-udp/src/")
     }
     pub fn is_overflow(&self) -> bool {
         self.msg.contains("attempt to") && self.msg.contains("overflow")
@@ -163,6 +163,54 @@ pub fn install_panic_hook() {
             .map(|l| (l.file().to_string(), l.line()))
             .unwrap_or_default();
         if capturing {
+            // A panic raised inside the standard library (e.g. the assertion in `Ord::clamp`, slice
+            // indexing, `Instant + Duration`) is attributed to the innermost frame that is not part of
+            // std/core: quinn if that frame lies in quinn's sources, the harness otherwise.
+            let (mut file, mut line) = (file, line);
+            let in_q = |f: &str| f.contains("/repo/") || f.contains("quinn-proto/src/") || f.contains("quinn/src/") || f.contains("quinn-udp/src/");
+            if !in_q(&file) && !file.contains("/harness/src/") && !file.contains("/verif/") {
+                let bt = std::backtrace::Backtrace::force_capture().to_string();
+                if std::env::var("QV_DEBUG_BT").is_ok() {
+                    eprintln!("--- backtrace of captured panic ---\n{bt}");
+                }
+                // frames: "  N: symbol" optionally followed by "at file:line:col"; skip everything up to
+                // the panic machinery (which includes this hook), then std/core frames
+                let mut frames: Vec<(String, String)> = vec![];
+                for l in bt.lines() {
+                    let t = l.trim();
+                    if let Some(at) = t.strip_prefix("at ") {
+                        if let Some(last) = frames.last_mut() {
+                            last.1 = at.to_string();
+                        }
+                    } else if let Some((_, sym)) = t.split_once(": ") {
+                        frames.push((sym.to_string(), String::new()));
+                    }
+                }
+                let mut start = frames.iter().position(|(sym, _)| sym.contains("rust_begin_unwind")).map_or(0, |i| i + 1);
+                while frames.get(start).is_some_and(|(sym, _)| sym.contains("core::panicking::")) {
+                    start += 1;
+                }
+                for (sym, at) in frames.iter().skip(start) {
+                    let std_frame = at.starts_with("/rustc/") || at.contains("/library/") || sym.starts_with("core::") || sym.starts_with("std::") || sym.starts_with("alloc::") || sym.starts_with("<core::") || sym.starts_with("<std::") || sym.starts_with("<alloc::");
+                    if std_frame {
+                        continue;
+                    }
+                    let mut parts = at.rsplitn(3, ':');
+                    let _col = parts.next();
+                    let ln = parts.next().and_then(|x| x.parse::<u32>().ok()).unwrap_or(0);
+                    let f = parts.next().unwrap_or(at).to_string();
+                    if in_q(&f) || sym.starts_with("quinn_proto::") || sym.starts_with("quinn::") || sym.starts_with("quinn_udp::") || sym.starts_with("<quinn") {
+                        if in_q(&f) {
+                            file = f;
+                            line = ln;
+                        } else {
+                            file = format!("quinn:{sym}");
+                            line = 0;
+                        }
+                    }
+                    break;
+                }
+            }
             LAST_PANIC.with(|p| *p.borrow_mut() = Some(PanicInfo { msg, file, line }));
         } else {
             default(info);
